@@ -470,7 +470,15 @@ impl Sim {
             Guarded::Done(x) => x,
             Guarded::Panicked(m) => {
                 // Which property owns the step: a batch containing a merge is a braid (C02).
-                let owner = if cmds.iter().any(|c| matches!(c.parent, Prior::Merge(..))) { Some("C02") } else { None };
+                // Where the model says the call must be refused because of concurrent finalize commands,
+                // a panic instead of that refusal is C05's to report.
+                let owner = if matches!(pred.err, Some(ExpErr::ParallelFinalize)) {
+                    Some("C05")
+                } else if cmds.iter().any(|c| matches!(c.parent, Prior::Merge(..))) {
+                    Some("C02")
+                } else {
+                    None
+                };
                 self.on_panic(owner, &format!("{ctx}: add_commands"), m);
                 return 0;
             }
@@ -814,7 +822,9 @@ impl Sim {
         let res = match res {
             Guarded::Done(x) => x,
             Guarded::Panicked(m) => {
-                self.on_panic(Some(if new_heads.len() > 1 { "C02" } else { "C08" }), "commit", m);
+                // A commit the model expects to be refused with ParallelFinalize and that panics instead
+                // is C05's to report.
+                self.on_panic(Some(if want == Want::ParallelFinalize { "C05" } else if new_heads.len() > 1 { "C02" } else { "C08" }), "commit", m);
                 return;
             }
         };
